@@ -1148,6 +1148,7 @@ def directed_sessions():
                  base.replace('\ndef fn_beta', '\n    def fn_beta').replace('\n    """beta', '\n        """beta')
                      .replace('\n    return a\n\nobj', '\n        return a\n\nobj'),     # moved into the class
                  base,                                                                   # undo
+                 base.replace('class Alpha:', 'class Alpha(object):'),                   # header changes, body is copied
                  'fn_beta = 3\n' + base,                                                 # everything shifts down
                  base]
         steps = []
